@@ -99,6 +99,7 @@ Definition st_s (s : st_store) (k : string) : string := match st_get s k with So
 Definition fl_sign (b : Z) : bool := Z.leb (2 ^ 63) b.
 Definition fl_mag (b : Z) : Z := b mod 2 ^ 63.
 Definition fl_nan (b : Z) : bool := Z.ltb 9218868437227405312 (fl_mag b).        (* 0x7FF0000000000000 *)
+Definition fl_finite (b : Z) : bool := Z.ltb (fl_mag b) 9218868437227405312.           (* neither NaN nor an infinity *)
 Definition fl_lt0 (b : Z) : bool := (fl_sign b && negb (Z.eqb (fl_mag b) 0) && negb (fl_nan b))%bool.
 Definition fl_le0 (b : Z) : bool := (negb (fl_nan b) && (fl_sign b || Z.eqb (fl_mag b) 0))%bool.
 Definition fl_gt1 (b : Z) : bool := (negb (fl_sign b) && negb (fl_nan b) && Z.ltb 4607182418800017408 (fl_mag b))%bool. (* 0x3FF0000000000000 *)
@@ -147,7 +148,10 @@ Definition st_parse (globals : bool) (t : st_ty) (raw : string) (po : st_po) : s
     | StInt | StInt64 => st_of_opt (fun _ => SvS raw) (po_int po)
     | StInt32 => st_of_opt (fun _ => SvS raw) (po_i32 po)
     | StDuration => st_of_opt (fun _ => SvS raw) (po_dur po)
-    | StFloat => st_of_opt (fun _ => SvS raw) (po_flt po)
+    | StFloat => match po_flt po with      (* NaN and the infinities are refused when the source says so (Gen fact) *)
+                 | Some b => if (gen_globals_float_finite_only && negb (fl_finite b))%bool then RReject else ROk (SvS raw)
+                 | None => RReject
+                 end
     | StBool => st_of_opt (fun _ => SvS raw) (po_bool po)
     | StString | StStrings => ROk (SvS raw)
     | StCoin => match po_int po with
@@ -460,3 +464,27 @@ Fixpoint st_run (k : st_contract) (env : st_env) (s : st_state) (ops : list st_o
   | o :: tl => let '(s1, out) := st_step k env s o in
                let '(s2, outs) := st_run k env s1 tl in (s2, out :: outs)
   end.
+
+(* ---------- chain globals: declared type vs the type the chain reads the value back with ---------- *)
+
+(* update_globals validates a value against the type declared in GlobalSettingInfo; chain.ConfigImpl.Update reads the
+   stored string back with cf.GetX, which parses with the type of the getter and silently falls back to the node's
+   local yaml when that parse fails. gen_globals_consumers (translator) lists, per key, the parse type of the getter. *)
+Fixpoint st_consumer_ty (l : list st_row) (name : string) : option st_ty :=
+  match l with
+  | [] => None
+  | r :: tl => if String.eqb (st_row_name r) name then Some (st_row_ty r) else st_consumer_ty tl name
+  end.
+
+(* mutable keys whose declared type is not the type the consumer parses with: (key, declared, consumer) *)
+Definition st_global_type_disagreements : list (string * st_ty * st_ty) :=
+  flat_map (fun r => if st_row_flag r then
+                       match st_consumer_ty gen_globals_consumers (st_row_name r) with
+                       | Some t => if st_ty_eqb (st_row_ty r) t then [] else [(st_row_name r, st_row_ty r, t)]
+                       | None => []
+                       end
+                     else []) gen_globals_table.
+
+(* every key the chain reads is declared *)
+Definition st_global_consumers_declared : bool :=
+  forallb (fun c => existsb (fun r => String.eqb (st_row_name r) (st_row_name c)) gen_globals_table) gen_globals_consumers.
